@@ -171,7 +171,7 @@ CLAIMS = {
                  "whose time is the instant a full-precision literal denotes prints exactly that literal's fields, and days_injective: "
                  "different dates denote disjoint day intervals. That chrono computes these algorithms, and the local-time offset (fixed and "
                  "daylight-saving zones, offset per instant taken from glibc), are tied by correspondence on a grid of edge times in six "
-                 "zones; chrono-english free-form dates are outside the model."),
+                 "zones; chrono-english free-form dates are outside the model. Relative literals (today, yesterday, ±N) are checked under the real clock and under wall clocks fixed by an LD_PRELOAD shim on 29 February, the last and first day of a year, the last day of a 30-day month and 1 March; the model is told the same day."),
         "ref": "DESIGN.md §4 C13",
     },
     "C14": {
